@@ -382,6 +382,15 @@ def run(c, chk):
         # was looked up before (a remembered last answer is a mutable global under no reset discipline: rule R8.0 of C08)
         chk.rule('R17.14', 'name resolution keeps no memory: neither unit has a mutable global outside the reset disciplines (rule R8.0 of C08; a cache of the last lookup is one)')
         _c08.classified_globals(c, chk, rid='R17.14', rid5='R17.14')
+        # R17.15: the directory list outlives every section: resolution after a section was replaced or removed walks a live list
+        from . import c07 as _c07s
+        chk.rule('R17.15', 'replacing or removing a section never releases the search path it borrows from the root (rule R7.3 of C07)')
+        _c07s.searchpath_rule(c, _c08.chk_proxy(chk, {'R7.3': 'R17.15'}), sym.Explorer(c.modules, max_visits=2, mod_sets=c.mod_sets, max_paths=200000))
+        # R17.16: include() judges the file it resolved (the opened stream), like the top-level parse does: a directory is refused
+        chk.rule('R17.16', 'the directory test of include() is made on the resolved file (rule R13.5 of C13)')
+        sub13 = report.SubCheck(chk, 'R17.16', 'C13', only=('R13.5',))
+        _c13.run(c, sub13)
+        sub13.done('include of a directory')
 
     # ---- R17.6 ---------------------------------------------------------------------------------
     resolution_idiom(c, chk, ex)
